@@ -45,7 +45,8 @@ Definition enc_effect (e : effect) : val :=
   match e with
   | ExtIn a => VL [VS "extin"; vq a]
   | ExtOut a => VL [VS "extout"; vq a]
-  | Xfer pid a => VL [VS "xfer"; VS pid; vq a]
+  | XferIn pid a t => VL [VS "xferin"; VS pid; vq a; VZ t]
+  | XferOut pid a t => VL [VS "xferout"; VS pid; vq a; VZ t]
   | Fill pid tx => VL [VS "fill"; VS pid; enc_txn tx]
   end.
 
